@@ -111,30 +111,36 @@ def summarise(cmd, ev):
     return {"cmd": c, "event": r}
 
 
-def transition_steps(tr):
-    """Turn one printed transition of MC_Seq (last call + messages on the wire + raw contexts) into a
-    self-contained behaviour: build the contexts with the hook, re-create the messages the call refers to
-    by sealing them at their sequence numbers, put the context into the call's pre-state, make the call."""
+def _fmap(x):
+    """ToJson prints an empty TLA+ function as [] and a non-empty one with string keys as an object"""
+    return x if isinstance(x, dict) else {}
+
+
+def transition_steps(tr, prologue=None):
+    """Turn one printed transition (TransitionRecord of Hpke.tla) into a self-contained behaviour that
+    re-creates the pre-state through the API and then makes the call: the calls that created every
+    context, every message sealed so far, every message accepted so far, then `last`."""
     last = tr["last"]
-    steps = list(tr["raw"])
-    need = []
-    d = (last.get("plain") or {}).get("d") if isinstance(last.get("plain"), dict) else None
-    if d and d.get("k") != "garbage":
-        msgs = tr["sent"].get(d["s"], [])
-        for idx in (d["i"], d["j"]):
-            if 1 <= idx <= len(msgs) and (d["s"], idx) not in need:
-                need.append((d["s"], idx))
-    for s, idx in need:
-        m = tr["sent"][s][idx - 1]
-        steps.append({"op": "set_seq", "c": s, "form": "", "plain": {"seq": m["seq"], "ovf": False}, "bytes": {},
-                      "kind": "ok", "err": "", "out": {}, "outn": {}, "pre": {}, "post": {"seq": m["seq"], "ovf": False},
-                      "untouched": False})
-        steps.append({"op": "seal", "c": s, "form": "detached", "plain": {}, "bytes": {"pt": m["pt"], "aad": m["aad"]},
-                      "kind": "ok", "err": "", "out": {"ct": m["ct"], "tag": m["tag"]}, "outn": {}, "pre": {},
-                      "post": {}, "untouched": False})
-    if last.get("c") and last.get("pre", {}).get("seq"):
-        steps.append({"op": "set_seq", "c": last["c"], "form": "", "plain": {"seq": last["pre"]["seq"], "ovf": last["pre"]["ovf"]},
-                      "bytes": {}, "kind": "ok", "err": "", "out": {}, "outn": {}, "pre": {}, "post": last["pre"],
-                      "untouched": False})
+    steps = list(prologue or [])
+    made = _fmap(tr.get("made"))
+    created_by_last = last["op"] in ("setup_s", "setup_r", "raw_ctx") and last.get("kind") == "ok"
+    for c in sorted(made):
+        if created_by_last and c == last.get("c"):
+            continue
+        steps.extend(made[c])
+    shots = list(tr.get("shots") or [])
+    if last["op"] == "single_shot_seal" and last.get("kind") == "ok" and shots:
+        shots = shots[:-1]
+    steps.extend(shots)
+    for c, recs in sorted(_fmap(tr.get("sent")).items()):
+        recs = list(recs)
+        if last["op"] == "seal" and last.get("kind") == "ok" and last.get("c") == c and recs:
+            recs = recs[:-1]
+        steps.extend(recs)
+    for c, recs in sorted(_fmap(tr.get("rcvd")).items()):
+        recs = list(recs)
+        if last["op"] == "open" and last.get("kind") == "ok" and last.get("c") == c and recs:
+            recs = recs[:-1]
+        steps.extend(recs)
     steps.append(last)
     return steps
